@@ -16,6 +16,7 @@ type C12Plan struct {
 	Clients [][]OpSpec `json:"clients"`
 	Sim     SimCfg     `json:"sim"`
 	Solo    SimCfg     `json:"solo_sim"`
+	Pristine bool      `json:"pristine_config"` // reload a configuration no API call has touched yet (cold lazy state)
 }
 
 type c12 struct{}
@@ -54,6 +55,7 @@ func (c12) Gen(seed uint64, run int, tier, variant string) interface{} {
 	// happens-before edges (the real sync.Pool's hashed race addresses would hide
 	// races non-deterministically)
 	p.Sim.PoolBuggy = true
+	p.Pristine = r.Chance(34)
 	p.Solo = SimCfg{NumCPU: p.Sim.NumCPU, Policy: "fifo", Seed: r.U64(), PoolBuggy: true}
 	return &p
 }
@@ -66,7 +68,7 @@ func (c12) Decode(raw json.RawMessage) (interface{}, error) {
 
 func (c12) Sched(plan interface{}) []*SimCfg {
 	p := plan.(*C12Plan)
-	return []*SimCfg{&p.Solo, &p.Sim}
+	return []*SimCfg{&p.Sim, &p.Solo}
 }
 
 type c12res struct {
@@ -86,22 +88,12 @@ func (c12) Exec(plan interface{}) Result {
 		}
 	}
 	res.Shape = fmt.Sprintf("clients=%d ops=%d kinds=%d cpu=%d pool=%v", len(p.Clients), nops, len(kinds), p.Sim.NumCPU, p.Sim.PoolBuggy)
-	// 1. every operation alone (one after the other, same simulated CPU count)
-	solo, out := Simulate(p.Solo, 20000, func() [][]string {
-		all := make([][]string, len(p.Clients))
-		for c, ops := range p.Clients {
-			for _, o := range ops {
-				all[c] = append(all[c], runOp(o))
-			}
-		}
-		return all
-	})
-	res.absorb(out)
-	if res.Class != "" || res.Infra != "" {
-		res.Detail = "solo phase: " + res.Detail
-		return res
+	// The concurrent phase runs FIRST and on a pristine configuration (no API call has
+	// touched it yet): lazily initialised state inside the shared configuration or the
+	// package is built for the first time while several clients are active.
+	if p.Pristine && env.FreshConfig() {
+		res.note("pristine-config")
 	}
-	// 2. all clients concurrently, sharing the configuration and package tables
 	conc, out2 := Simulate(p.Sim, 40000, func() [][]string {
 		done := make(chan c12res, len(p.Clients))
 		for c := range p.Clients {
@@ -125,6 +117,21 @@ func (c12) Exec(plan interface{}) Result {
 	res.absorb(out2)
 	if res.Class != "" || res.Infra != "" {
 		res.Detail = "concurrent phase: " + res.Detail
+		return res
+	}
+	// then every operation alone (one after the other, same simulated CPU count)
+	solo, out := Simulate(p.Solo, 20000, func() [][]string {
+		all := make([][]string, len(p.Clients))
+		for c, ops := range p.Clients {
+			for _, o := range ops {
+				all[c] = append(all[c], runOp(o))
+			}
+		}
+		return all
+	})
+	res.absorb(out)
+	if res.Class != "" || res.Infra != "" {
+		res.Detail = "solo phase: " + res.Detail
 		return res
 	}
 	for c := range p.Clients {
